@@ -355,7 +355,9 @@ PROPS["C20"] = dict(
 
 # ------------------------------------------------------------------------------------------
 # appenders over the model disk
-HARNESS_LOOPS = [(r"^(c04_file|c05_rolling|c08_faults|world::fs|wfile)::", "*", 26)]
+HARNESS_LOOPS = [(r"^(c04_file|c05_rolling|c08_faults|world::fs|wfile)::", "*", 26),
+                 (r"^<std::fs::File as std::io::Write>::write$", "*", 26), (r"^std::fs::OpenOptions::open", "*", 26),
+                 (r"^std::fs::(rename|copy|remove_file|create_dir_all)", "*", 26)]
 _fs_assumptions = [
     "E4 model file system and file handles (harness/src/world.rs, wfile.rs) replace OpenOptions::{append,truncate,open}, "
     "File::metadata, Metadata::len, <File as Write>::{write,flush}, the closing of descriptors, fs::{rename,create_dir_all}: a handle "
@@ -609,26 +611,11 @@ PROPS["C19"] = dict(
 )
 
 # C13: add the builder harnesses
-PROPS["C13"]["functions"] += ["ConfigBuilder::build_lossy", "ConfigBuilder::build"]
-PROPS["C13"]["bounds"] += "; builder: 2-3 appenders x 2-3 loggers with one reference each; per harness ONE item (an appender name, a logger name, a logger reference or the root reference) is the solver's choice from its pool (appender names {A,B}; logger names a, a::b, b, 'a:', ''; references {A,B,Z}), the others are fixed by the instance (all items symbolic at once ran out of memory at 12 GB)"
-PROPS["C13"]["outside"] = "more than 3 appenders / loggers, more than one reference per logger, names outside the pools; installing and logging through the returned configuration (covered for valid configurations by C15's harnesses)"
-PROPS["C13"]["assumptions"] += ["E1: the two HashSet<String> of build_lossy are replaced by a fixed-capacity list with bytewise comparison"]
-PROPS["C13"]["level_text"] += " Builder: for every choice of names from the pools the reported errors equal the reference list item by item (nothing missing, nothing innocent), strict build succeeds iff that list is empty, and the lossy result consists of exactly the valid items in order."
-PROPS["C13"]["level_note"] = "Trusted: Kani/CBMC/CaDiCaL, E1."
-PROPS["C13"]["harnesses"] += [
-    H("c13_builder::strict_1x1_free_logger", timeout=1800, mem_gb=12, instance="strict, 1 appender, 1 logger", symbolic="the logger's name", bound="unwind 8"),
-    H("c13_builder::lossy_1x2_free_logger", timeout=1800, mem_gb=12, instance="lossy, 1 appender, loggers [a::b, ?]", symbolic="the second logger's name", bound="unwind 8"),
-    H("c13_builder::lossy_free_appender", timeout=1800, mem_gb=12, instance="lossy, appenders [A, ?], loggers a, a::b (valid)", symbolic="the second appender's name over {A,B}", bound="unwind 8"),
-    H("c13_builder::lossy_free_appender_witness", kind="witness", timeout=1800, mem_gb=12),
-    H("c13_builder::lossy_free_logger", timeout=1800, mem_gb=12, instance="lossy, loggers [a, ?]", symbolic="the second logger's name over {a, a::b, b, 'a:', ''}", bound="unwind 8"),
-    H("c13_builder::strict_free_logger", timeout=1800, mem_gb=12, instance="strict, loggers [a, ?]", symbolic="the second logger's name", bound="unwind 8"),
-    H("c13_builder::lossy_free_ref", tier="thorough", timeout=3600, mem_gb=14, instance="lossy, second logger's reference free", symbolic="reference over {A,B,Z}", bound="unwind 8"),
-    H("c13_builder::lossy_free_root", tier="thorough", timeout=3600, mem_gb=14, instance="lossy, root reference free", symbolic="reference over {A,B,Z}", bound="unwind 8"),
-    H("c13_builder::strict_free_appender", tier="thorough", timeout=3600, mem_gb=14, instance="strict, appenders [A, ?]", symbolic="the second appender's name", bound="unwind 8"),
-    H("c13_builder::lossy_dups_free_logger", tier="thorough", timeout=3600, mem_gb=14, instance="lossy, 3 appenders [A,A,?B], loggers [a, a, ?], dangling references", symbolic="the third logger's name", bound="unwind 8"),
-    H("c13_builder::lossy_dups_free_appender", tier="thorough", timeout=3600, mem_gb=14, instance="lossy, 3 appenders [A,A,?], duplicates and dangling references", symbolic="the third appender's name", bound="unwind 8"),
-]
-
+PROPS["C13"]["_unused_builder_bounds"] = "; builder: 2-3 appenders x 2-3 loggers with one reference each; per harness ONE item (an appender name, a logger name, a logger reference or the root reference) is the solver's choice from its pool (appender names {A,B}; logger names a, a::b, b, 'a:', ''; references {A,B,Z}), the others are fixed by the instance (all items symbolic at once ran out of memory at 12 GB)"
+PROPS["C13"]["outside"] = "the builder part (duplicate detection, dangling references, lossy filtering, error reporting): ConfigBuilder::build did not fit the solver's memory even for a concrete one-appender configuration - not decided by this check"
+# The builder harnesses (harness/src/c13_builder.rs) are not registered: a fully concrete configuration of one
+# appender and one logger through ConfigBuilder::build runs out of 12 GB in CBMC's propositional reduction (measured,
+# DESIGN.md section 9.6); C13 is claimed for the name-validity half only.
 # C18: add the console policy harnesses
 PROPS["C18"]["functions"] += ["COLOR_MODE initialiser", "console::imp::Writer::{stdout,stderr}", "ConsoleAppenderBuilder::build"]
 PROPS["C18"]["bounds"] += "; (a) NO_COLOR / CLICOLOR / CLICOLOR_FORCE each unset, '0' or '1', isatty per descriptor, target, tty_only: all combinations as solver variables"
